@@ -348,9 +348,14 @@ func runCache(t *testing.T, scAny any, trace bool) *Outcome {
 		d := newCacheDriver(sc)
 		m := newCModel(sc)
 		if len(sc.Threads) > 0 {
+			simrt.Probe("run_class.concurrent")
+			if len(sc.Pre) > 0 {
+				simrt.Probe("run_class.concurrent_with_expired_entries")
+			}
 			runCacheConcurrent(o, sc, d, m, attr)
 			return
 		}
+		simrt.Probe("run_class.sequential")
 		o.NonTrivial = len(sc.Ops) >= 3
 		start := simrt.Now()
 		for i, op := range sc.Ops {
